@@ -1275,6 +1275,45 @@ func main() {
 			})
 		}
 		emitStr("exportVectorLoop", verb, verb != "")
+		// the record ImportJSON decodes and what it does with it; how ExportJSON prints the id
+		var imp []string
+		if fd := funcDecl("dump.go", "ImportJSON"); fd != nil {
+			ast.Inspect(fd.Body, func(x ast.Node) bool {
+				switch n := x.(type) {
+				case *ast.StructType:
+					for _, f := range n.Fields.List {
+						nm := ""
+						if len(f.Names) > 0 {
+							nm = f.Names[0].Name
+						}
+						tag := ""
+						if f.Tag != nil {
+							tag = f.Tag.Value
+						}
+						imp = append(imp, "field "+nm+" "+strings.Join(strings.Fields(src(f.Type)), " ")+" "+tag)
+					}
+				case *ast.CallExpr:
+					if se, ok := n.Fun.(*ast.SelectorExpr); ok && se.Sel.Name == "AddDocument" {
+						imp = append(imp, strings.Join(strings.Fields(src(n)), " "))
+					}
+				}
+				return true
+			})
+		}
+		emitStrList("importRecord", imp, len(imp) > 0)
+		var expID []string
+		if fd := funcDecl("dump.go", "ExportJSON"); fd != nil {
+			ast.Inspect(fd.Body, func(x ast.Node) bool {
+				if c, ok := x.(*ast.CallExpr); ok {
+					t := strings.Join(strings.Fields(src(c)), " ")
+					if strings.Contains(t, "\\\"id\\\"") || strings.Contains(t, "doc.ID") || strings.Contains(t, ", id)") {
+						expID = append(expID, t)
+					}
+				}
+				return true
+			})
+		}
+		emitStrList("exportIdStmts", expID, true)
 	}
 
 	// --- REST: route table of RunServer and the status codes of each handler, in source order
